@@ -76,7 +76,7 @@ theorem fragment_start_in_template_bounds (input : GoStr) (hwf : WF (decodeAll i
       ∃ w, 1 ≤ t.line ∧ (lineLens (decodeAll input))[(t.line - 1).toNat]? = some w ∧ 1 ≤ t.col ∧ t.col - 1 ≤ (w : Int) := by
   intro t ht hf
   have hg : Good (decodeAll input) := ⟨runeOK_decodeFuel _ _, encOK_decodeFuel _ _, hwf⟩
-  exact tokAt_in_bounds _ t (run_frag hg _ _ _ [] (tinv_initL input) (fun h => by cases h) rfl (fun t ht => by cases ht) t ht hf)
+  exact tokAt_in_bounds _ t (run_frag hg _ _ _ [] (tinv_initL input) (fun h => by cases h) (fun _ => snil_sinv _ ⟨tinv_initL input, rfl⟩) rfl (fun t ht => by cases ht) t ht hf)
 
 -- PLANNED: bounds of every later character of a fragment (needs the emitter's use of the token); multi-line chunks on the generated side
 
